@@ -204,7 +204,9 @@ def value_selftest(ctx, events, fmt):
     for field in ("val", "ao"):
         k = ctx.rng.choice(cands)
         start = max(i for i in range(k + 1) if events[i].get("e") == "build")
-        pref = [json.loads(json.dumps(e)) for e in events[start:k + 1]]
+        # (events of the known-finding classes were dropped during validation: leave them out)
+        pref = [json.loads(json.dumps(e)) for e in events[start:k + 1]
+                if e.get("e") != "loc" or classify(e) == "other"]
         v = pref[-1][field]
         if v["t"] == "num":
             v["lit"] = v["lit"] + "0"
